@@ -145,6 +145,117 @@ async def scatter_gather_case(context):
     return check_links(rows, outs[0], [t.persistent_id for t in elems + sizes], f"gathered list after a real scatter of {n}")
 
 
+async def combinator_case(context):
+    """a real CombinatorStep: dot(plain, cart(x, y)) (a cross-product scatter combined with a plain input) or a flat dot / cartesian
+    product; every emitted token is linked to ALL the input tokens of its combination, nested ones included"""
+    from streamflow.workflow.combinator import CartesianProductCombinator, DotProductCombinator
+    from streamflow.workflow.step import CombinatorStep
+
+    shape = rng.choice(["dot(plain,cart(x,y))", "dot(a,b)", "cart(x,y)"])
+    wf = Workflow(context=context, name=uniq("c07-c"), config={})
+    if shape == "dot(plain,cart(x,y))":
+        names = ["plain", "x", "y"]
+        inner = CartesianProductCombinator(name=uniq("cart"), workflow=wf)
+        inner.add_item("x")
+        inner.add_item("y")
+        comb = DotProductCombinator(name=uniq("dot"), workflow=wf)
+        comb.add_combinator(inner, {"x", "y"})
+        comb.add_item("plain")
+        tags = {"plain": ["0"], "x": [f"0.{i}" for i in range(rng.randint(1, 2))], "y": [f"0.{i}" for i in range(rng.randint(1, 2))]}
+    elif shape == "dot(a,b)":
+        names = ["a", "b"]
+        comb = DotProductCombinator(name=uniq("dot"), workflow=wf)
+        for n in names:
+            comb.add_item(n)
+        t = [f"0.{i}" for i in range(rng.randint(1, 3))]
+        tags = {"a": list(t), "b": list(t)}
+    else:
+        names = ["x", "y"]
+        comb = CartesianProductCombinator(name=uniq("cart"), workflow=wf)
+        for n in names:
+            comb.add_item(n)
+        tags = {"x": [f"0.{i}" for i in range(rng.randint(1, 3))], "y": [f"0.{i}" for i in range(rng.randint(1, 2))]}
+    ins = {n: wf.create_port() for n in names}
+    outs = {n: wf.create_port() for n in names}
+    await wf.save(context.database)
+    step = wf.create_step(cls=CombinatorStep, name="/" + uniq("s") + "-combinator", combinator=comb)
+    for n in names:
+        step.add_input_port(n, ins[n])
+        step.add_output_port(n, outs[n])
+    src = {}
+    for n in names:
+        for t in rng.sample(tags[n], len(tags[n])):
+            tok = Token(f"{n}@{t}", tag=t)
+            await tok.save(context.database, ins[n].persistent_id)
+            src[(n, t)] = tok
+            ins[n].put(tok)
+        ins[n].put(TerminationToken())
+    await wf.save(context.database)
+    await asyncio.wait_for(StreamFlowExecutor(wf).run(), 60)
+    rows = await provenance(context)
+    by_tag = {}
+    for n in names:
+        for o in outs[n].token_list:
+            if not isinstance(o, TerminationToken):
+                by_tag.setdefault(o.tag, {})[n] = o
+    if not by_tag:
+        return {"failure": "the combinator step emitted nothing", "shape": shape, "tags": tags}
+    for tag, combo in by_tag.items():
+        # the sources of a combination: recovered from the values the emitted tokens carry (value = "<port>@<source tag>")
+        want = sorted(src[(o.value.split("@")[0], o.value.split("@")[1])].persistent_id for o in combo.values())
+        for n, o in combo.items():
+            bad = check_links(rows, o, want, f"{shape}: output {n} of combination {tag}")
+            if bad:
+                return bad
+    return None
+
+
+async def loop_output_case(context):
+    """a real CWLLoopOutputLastStep / CWLLoopOutputAllStep serving 2..3 loop instances whose tokens arrive interleaved: the output of an
+    instance is linked to exactly the iteration tokens of THAT instance"""
+    from streamflow.cwl.step import CWLLoopOutputAllStep, CWLLoopOutputLastStep
+    from streamflow.workflow.token import IterationTerminationToken
+
+    cls = rng.choice([CWLLoopOutputLastStep, CWLLoopOutputAllStep])
+    wf = Workflow(context=context, name=uniq("c07-l"), config={})
+    in_port, out_port = wf.create_port(), wf.create_port()
+    step = wf.create_step(cls=cls, name="/" + uniq("loop") + "/out-loop-output")
+    step.add_input_port("out", in_port)
+    step.add_output_port("out", out_port)
+    await wf.save(context.database)
+    inst = {f"0.{k}": rng.randint(1, 3) for k in range(rng.randint(2, 3))}
+    events, toks = [], {}
+    for prefix, n in inst.items():
+        seq = []
+        for i in range(n):
+            t = Token(f"{prefix}#{i}", tag=f"{prefix}.{i}")
+            toks.setdefault(prefix, []).append(t)
+            seq.append(t)
+        seq.append(IterationTerminationToken(tag=f"{prefix}.{n}"))
+        events.append(seq)
+    # random interleaving that keeps every instance's own order
+    order = []
+    while any(events):
+        seq = rng.choice([e for e in events if e])
+        order.append(seq.pop(0))
+    for t in order:
+        if not isinstance(t, IterationTerminationToken):
+            await t.save(context.database, in_port.persistent_id)
+        in_port.put(t)
+    in_port.put(TerminationToken())
+    await wf.save(context.database)
+    await asyncio.wait_for(StreamFlowExecutor(wf).run(), 60)
+    rows = await provenance(context)
+    outs = {o.tag: o for o in out_port.token_list if not isinstance(o, TerminationToken)}
+    if sorted(outs) != sorted(inst):
+        return {"failure": "the loop output step did not emit one output per loop instance", "instances": inst, "outputs": sorted(outs)}
+    for prefix, o in outs.items():
+        bad = check_links(rows, o, [t.persistent_id for t in toks[prefix]], f"{cls.__name__}: output of loop instance {prefix} (arrival {[x.tag for x in order]})")
+        if bad:
+            return bad
+    return None
+
+
 async def search(n):
     workdir = tempfile.mkdtemp(prefix="c07.")
     context = build_context({"database": {"type": "default", "config": {"connection": ":memory:"}}, "path": workdir})
@@ -155,7 +266,7 @@ async def search(n):
             if bad:
                 return bad
         for k in range(n):
-            bad = await [transformer_case, gather_case, scatter_gather_case][k % 3](context)
+            bad = await [transformer_case, gather_case, scatter_gather_case, combinator_case, loop_output_case][k % 5](context)
             if bad:
                 return bad
     except Exception as e:
